@@ -186,6 +186,9 @@ PROOF_FAIL_KINDS = [
     ('precondition not satisfied', 'precondition'),
     ('invariant not satisfied at end of loop body', 'invariant-preserved'),
     ('invariant not satisfied before loop', 'invariant-init'),
+    ('loop invariant not satisfied', 'invariant-at-exit'),
+    ('loop ensures not satisfied', 'invariant-at-exit'),
+    ('invariant not satisfied', 'invariant'),
     ('assertion failed', 'assertion'),
     ('assertion not satisfied', 'assertion'),
     ('bitvector assertion not satisfied', 'assertion-bitvector'),
